@@ -83,6 +83,7 @@ def sched_parts(pid: str, tier: str):
         from harness.graph import run_c12
 
         parts.append(Part("selection-closure-N2", P(run_c12, GCfg(N=2, indexed=True)), {"N": 2, "what": "exactly the documented closure runs for every (R, X, T) and alias / tag style"}, 900, 5, ["w_error_case"], GRAPH_FUNCS))
+        parts.append(Part("selection-closure-N4-reconverging", P(run_c12, GCfg(N=4, fixed_shapes=SHAPES_N4)), {"N": 4, "shapes": "diamond, triangle + independent node, reconverging pair below a branch, two roots with join and top"}, 900, 6, ["w_error_case", "w_proper_subgraph", "w_all_three"], GRAPH_FUNCS))
         parts.append(Part("setup-histories-len3-N2", P(run_c11, HCfg(N=2, length=3, flavours="s")), {"N": 2, "length": 3, "what": "an already-set-up node is not entered again"}, 900, 8, ["w_reuse"], HIST_FUNCS))
         from harness.history import run_c15
 
